@@ -192,7 +192,7 @@ def gen_ruler_history(rng):
     nfn = 0
     for _ in range(rng.randint(2, 4)):
         nfn += 1
-        ops.append({"op": "push", "name": rng.choice(names[:5]), "fn": nfn, "alt": rng.sample(["p", "q"], rng.randint(0, 2))})
+        ops.append({"op": "push", "name": rng.choice(names[:5]), "fn": nfn, "alt": rng.choice([rng.sample(["p", "q"], rng.randint(0, 2)), ["p", "q", "p"], ["", "q"]])})
     for _ in range(rng.randint(3, 36)):
         kind = rng.choice(["push", "before", "after", "at", "enable", "enableOnly", "disable", "disable", "enable", "getRules"])
         name = rng.choice(names)
@@ -201,7 +201,7 @@ def gen_ruler_history(rng):
         elif kind in ("push", "before", "after", "at"):
             nfn += 1
             o = {"op": kind, "name": name if kind == "at" else rng.choice(names[:5]), "fn": nfn,
-                 "alt": rng.choice([None, [], ["p"], ["q"], ["p", "q"]])}
+                 "alt": rng.choice([None, [], ["p"], ["q"], ["p", "q"], ["p", "p"], ["q", "p", "q"], [""], ["", "p"]])}
             if kind in ("before", "after"):
                 o["ref"] = rng.choice(names)
             ops.append(o)
